@@ -744,7 +744,7 @@ Proof.
   intros HS HP HE.
   change (s_items (l_well (norm_las (refresh_result l need nS nP nE))))
     with (map (hf (standardize fzero)) (align (unit_of l nS) nS nP nE (set_vals need (index_of l) nS nP nE (s_items (l_well l))))).
-  eapply Forall2_map_compose; [|apply refresh_items_frame; assumption].
+  eapply Forall2_map_compose; [|apply (refresh_items_frame (s_transforms (l_well l)) _ nS nP nE HS HP HE)].
   intros a b (O & S & D & U). unfold wframe_n, hf, set_value. simpl.
   repeat split; try assumption.
   - destruct (U H) as [X _]. exact X.
